@@ -53,8 +53,8 @@ MANIFEST_ENTRY = {
         "hashlib, pycryptodome, uuid, lxml, mp4walk, Flask test client, shims."),
     "technique": "Lean 4 proof (byte-list models, parametric hash/cipher, round-trip lemmas) + model/implementation correspondence + independent oracle",
 }
-PROP_FILES = ["DashLive/Props/C11.lean"]
-LEAN_TARGETS = ["DashLive.Props.C11"]
+PROP_FILES = ["DashLive/Props/C11.lean", "DashLive/Props/C11WrmHeader.lean"]
+LEAN_TARGETS = ["DashLive.Props.C11", "DashLive.Props.C11WrmHeader"]
 import gen_wrmheader  # noqa: E402
 GENERATORS = [gen_wrmheader.main]
 TRUSTED = [
